@@ -15,10 +15,17 @@ MODULES = [
     "contracts.c_calendars",
     "contracts.c_total",
     "contracts.c_state",
+    "contracts.c_text",
 ]
 
 STANDINS = [
     {"name": "tz_spellings", "module": "standins.tz_spellings", "props": ["C11"],
+     "timeout": {"quick": 900, "thorough": 3600}},
+    {"name": "sanitize_relational", "module": "standins.sanitize_relational", "props": ["C18"],
+     "timeout": {"quick": 900, "thorough": 3600}},
+    {"name": "noise_corpus", "module": "standins.noise_corpus", "props": ["C18"],
+     "timeout": {"quick": 900, "thorough": 3600}},
+    {"name": "search_sweep", "module": "standins.search_sweep", "props": ["C17"],
      "timeout": {"quick": 900, "thorough": 3600}},
     {"name": "history", "module": "standins.history", "props": ["C03"],
      "timeout": {"quick": 900, "thorough": 3600}},
@@ -41,6 +48,8 @@ LEVELS = {
     "C15": "other",
     "C02": "other",
     "C03": "other",
+    "C18": "other",
+    "C17": "other",
 }
 
 _COMMON = [
